@@ -20,15 +20,18 @@ from ..lib import call_impl
 
 PROP = "C18"
 RULE = ("cases: (1) exhaustive: one-protein files for every sequence over {K,A,C} up to length 7 (quick) / 8 (thorough), "
-        "shuffle and reverse, plus every permutation of range(k), k<=4 (quick) / 5 (thorough), as the scripted value of the "
-        "permutation oracle and the retry-loop boundaries (identity returned 0,1,99,100 times); (2) random structured FASTA "
-        "inputs: 1-3 files, 1-6 records, descriptions, multi-line records of several widths, CRLF, blank lines, sequence "
-        "lengths 0-5, 69/70/71, 139/140/141 and random, with and without cleavage sites, residue-class and look-around "
-        "enzymes (str or compiled), shuffle/reverse, concatenate on/off, several prefixes, numpy RNG (seeded) or scripted "
-        "permutations; (3) malformed stream: random texts over a token alphabet ('>', newlines of all kinds, spaces, tabs, "
-        "'-', long runs, empty files, no leading '>'), through make_decoys and through the parser alone; (4) textwrap vs the "
-        "70-column chunking of the model. distinct = distinct case content; non-trivial = some peptide has an interior of "
-        ">= 2 residues (the shuffle acts) or the input is malformed")
+        "shuffle and reverse; thorough adds every sequence over {K,R,A,C} up to length 6 with [KR] and every length-9 "
+        "sequence over {K,A,C}; every permutation of range(k), k<=4 (quick) / 6 (thorough), as the scripted value of the "
+        "permutation oracle (two peptides share the cached permutation) and the retry-loop boundaries (identity returned "
+        "0,1,2,99,100,101,150 times); (2) random structured FASTA inputs: 1-3 files, 1-6 records, descriptions, multi-line "
+        "records of several widths, CRLF / CR, blank lines, empty names, sequence lengths 0-6, 69/70/71, 139/140/141, 210 and "
+        "random to 320, with and without cleavage sites, residue-class and look-around enzymes (str or compiled), "
+        "shuffle/reverse, concatenate on/off, six prefixes, numpy RNG (seeded) or scripted permutations; (3) malformed "
+        "stream: random texts over a token alphabet ('>', newlines of all kinds, spaces, tabs, '-', long runs, empty "
+        "files, no leading '>'), through make_decoys and through the parser alone; (3b) sequences with blanks (outside the "
+        "round-trip guard; agreement required, property outcome reported in the evidence); (4) textwrap vs the 70-column "
+        "chunking of the model. distinct = distinct case content; non-trivial = some peptide has an interior of >= 2 "
+        "residues (the shuffle acts) or the input is malformed")
 ASSUMPTIONS = [
     "files are UTF-8; open() newline translation is modelled (fa_universal_nl), the codec is not",
     "str.splitlines() boundaries modelled: \\n \\v \\f \\r \\r\\n FS GS RS NEL LS PS",
@@ -216,7 +219,7 @@ def _run(c):
                 _CONTRACT_FAIL.append((f"wrapped lines {ls!r} are not chunks of 1..70 whose concatenation is {s!r}", c))
             elif "-" not in s and ls != chunks70(s):
                 _CONTRACT_FAIL.append((f"sequence {s!r} is not wrapped at exactly 70 columns: {ls!r}", c))
-    r = {"res": res, "draws": [dr[1:] for dr in draws], "wraps": table}
+    r = {"res": res, "draws": [dr[1:] for dr in draws], "wraps": table, "case": c}
     _CACHE[k] = r
     return r
 
@@ -428,6 +431,31 @@ def shrink(c):
             yield dict(c, files=files[:fi] + [txt[:k] + txt[k + step:]] + files[fi + 1:])
 
 
+def finding_key(c, m, i):
+    """structural key of a disagreement / property failure"""
+    if c.get("fn") == "make_decoys" and c.get("struct") is not None and not _wellformed(c):
+        if any(ch in " \t" for _, s in struct_entries(c["struct"]) for ch in s):
+            return "C18-blank-in-sequence"
+    return None
+
+
+def _outside_guard():
+    """behaviour on inputs whose sequences contain blanks: does the property text still hold?"""
+    n = lost = 0
+    example = None
+    for r in _CACHE.values():
+        c = r.get("case")
+        if c is None or "blank-in-sequence" not in c.get("tags", []):
+            continue
+        n += 1
+        msg = check_property(c, lib.jsonable(r["res"]))
+        if msg:
+            lost += 1
+            if example is None or len(c["files"][0]) < len(example["files"][0]):
+                example = {"files": c["files"], "failure": msg[:300]}
+    return {"cases": n, "property_text_fails": lost, "example": example}
+
+
 def extra_checks(ctx):
     fails = []
     seen = set()
@@ -436,7 +464,8 @@ def extra_checks(ctx):
             continue
         seen.add(what)
         fails.append({"what": "oracle contract: " + what, "failing_input": {k: v for k, v in c.items()}})
-    return fails[:10], {"oracle_values_checked": dict(_COUNTS)}
+    return fails[:10], {"oracle_values_checked": dict(_COUNTS),
+                        "outside_guard_blank_in_sequence": _outside_guard()}
 
 
 # ----------------------------------------------------------------------------- generators
@@ -469,10 +498,23 @@ def gen(ctx):
                 st = [[{"name": "p", "desc": "", "seq": seq, "width": 60, "final": bool(k % 2)}]]
                 cases.append(_mk(st, "decoy_", "[K]" if k % 3 else "K", rev, bool(k % 5), {"mode": "numpy", "seed": k},
                                  ["exhaustive", "reverse" if rev else "shuffle"], single=bool(k % 2)))
+    if ctx.thorough:
+        # two-residue class, alphabet {K,R,A,C}, up to length 6; and length 9 over {K,A,C}, shuffle only
+        for n in range(0, 7):
+            for tup in itertools.product("KRAC", repeat=n):
+                k += 1
+                st = [[{"name": "p", "desc": "", "seq": "".join(tup), "width": 60, "final": bool(k % 2)}]]
+                cases.append(_mk(st, "decoy_", "[KR]", bool(k % 2), bool(k % 3), {"mode": "numpy", "seed": k},
+                                 ["exhaustive", "exhaustive-KRAC", "reverse" if k % 2 else "shuffle"]))
+        for tup in itertools.product("KAC", repeat=9):
+            k += 1
+            st = [[{"name": "p", "desc": "", "seq": "".join(tup), "width": 60}]]
+            cases.append(_mk(st, "decoy_", "K", False, True, {"mode": "script", "seed": k},
+                             ["exhaustive", "exhaustive-len9", "shuffle"]))
     # every permutation as oracle value, on distinct residues; two peptides of the same interior length
     # (the second must reuse the cached permutation) and one of another length
-    maxk = 5 if ctx.thorough else 4
-    letters = "ACDEFGHI"
+    maxk = 6 if ctx.thorough else 4
+    letters = "ACDEFGHIL"
     for kk in range(2, maxk + 1):
         for p in itertools.permutations(range(kk)):
             seq = "L" + letters[:kk] + "K" + "M" + letters[:kk][::-1] + "K" + "NSTVWK"
@@ -487,7 +529,7 @@ def gen(ctx):
     # (2) random structured -----------------------------------------------------------------------
     rng = ctx.sub("structured")
     special = [0, 0, 1, 2, 3, 4, 5, 6, 69, 70, 71, 139, 140, 141, 210]
-    nrand = 2500 if ctx.thorough else 350
+    nrand = 8000 if ctx.thorough else 350
     for j in range(nrand):
         nfiles = rng.choice([1, 1, 1, 2, 3])
         st = []
@@ -526,7 +568,7 @@ def gen(ctx):
             "\x0b", "\x0c", "\x1c", "\x1e", "ACDEFGHIKL" * 8, "GGGGKGGGG", "\n>", "\n>", "A-C-D" * 5, ">>", ";c"]
     if UTF8:
         toks += ["\x85", "\u2028", "\u2029", "\xe9"]
-    nmal = 3000 if ctx.thorough else 500
+    nmal = 10000 if ctx.thorough else 500
     for j in range(nmal):
         files = []
         for _ in range(rng.choice([1, 1, 2, 3])):
@@ -541,6 +583,26 @@ def gen(ctx):
              "tags": ["malformed"]}
         cases.append(c)
         cases.append({"fn": "parse", "files": files, "tags": ["malformed", "parser-only"]})
+    # (3b) sequences with blanks (outside the hypotheses of the round-trip theorem): trailing spaces on sequence
+    # lines, blocks of ten residues separated by spaces.  Model and code must still agree (textwrap is recorded);
+    # what happens to the property is reported in the evidence (extra_checks), not as a failure.
+    rng = ctx.sub("blank")
+    for j in range(400 if ctx.thorough else 60):
+        recs = []
+        for _ in range(rng.randint(1, 3)):
+            n = rng.choice([5, 20, 69, 70, 71, 100, 150])
+            seq = _rand_seq(rng, n, 0.1)
+            style = rng.choice(["trail", "blocks", "tab"])
+            if style == "blocks":
+                seq = " ".join(seq[i:i + 10] for i in range(0, len(seq), 10))
+                recs.append({"name": _rand_name(rng), "seq": seq, "width": 66})
+            else:
+                w = rng.choice([30, 60])
+                pad = " " if style == "trail" else "\t"
+                seq = "".join(seq[i:i + w] + pad for i in range(0, len(seq), w))
+                recs.append({"name": _rand_name(rng), "seq": seq, "width": w + 1})
+        cases.append(_mk([recs], "decoy_", "[KR]", rng.random() < 0.5, True, {"mode": "script", "seed": j},
+                         ["blank-in-sequence"]))
     # (4) textwrap vs the model's 70-column chunking ---------------------------------------------
     rng = ctx.sub("wrap")
     for n in list(range(0, 6)) + [69, 70, 71, 139, 140, 141, 209, 210, 211, 700] + [rng.randint(0, 400) for _ in range(40)]:
